@@ -319,6 +319,9 @@ func Run(p *Profile) (*Result, error) {
 						}
 						ph := post.Hash(p.WithGhost)
 						if vis.add(ph) {
+							if statesSoFar+atomic.LoadInt64(&newStates) >= maxStates {
+								atomic.StoreInt32(&stop, 3)
+							}
 							nn := &node{parent: n, act: act, depth: n.depth + 1, h: ph}
 							c.node, c.act = nn, nil
 							for _, o := range p.Oracles {
@@ -362,6 +365,8 @@ func Run(p *Profile) (*Result, error) {
 			res.Exhaustive = false
 			if s == 1 {
 				res.CapHit = fmt.Sprintf("transition cap %d hit while expanding depth %d", p.MaxTrans, depth)
+			} else if s == 3 {
+				res.CapHit = fmt.Sprintf("state cap %d hit while expanding depth %d", maxStates, depth)
 			} else {
 				res.CapHit = fmt.Sprintf("time cap %s hit while expanding depth %d", p.Deadline, depth)
 			}
